@@ -1,6 +1,7 @@
 package main
 
 import (
+	"go/constant"
 	"go/token"
 	"go/types"
 	"strings"
@@ -433,9 +434,70 @@ func ruleLintTypeAssert(c *Ctx, r *Rep) {
 }
 
 // idxNegExceptions: Index results used as a bound without a -1 test that are safe for a stated reason.
-var idxNegExceptions = map[string]string{
-	"filesystem.fsMetadata.artifactFileName|strings.LastIndex|high": "configFileName either passed the .yaml/.yml/.json suffix filter of the directory walk or was built as alias + \".yaml\": it always contains a dot",
-	"filesystem.FsDb.importCertConfigFile|strings.LastIndex|high":   "configPath is a walked file name that passed the suffix filter: it always contains a dot; a missing slash gives -1+1 = 0",
+// dottedPathIndex: strings.LastIndex(s, ".") where s is the configuration path the importer was given by the directory
+// walk, or the configFileName kept in the metadata - directly or through the parameter of a helper (lifted to its callers).
+func dottedPathIndex(c *Ctx, call *ssa.Call) bool {
+	if calleeFullName(call) != "strings.LastIndex" || len(call.Call.Args) != 2 {
+		return false
+	}
+	k, ok := call.Call.Args[1].(*ssa.Const)
+	if !ok || k.Value == nil || k.Value.Kind() != constant.String || constant.StringVal(k.Value) != "." {
+		return false
+	}
+	pathParam := ""
+	if imp := c.configImporter(); imp != nil {
+		for _, p := range imp.Params {
+			if isString(p.Type()) {
+				pathParam = "P(" + c.FuncKey(imp) + "." + p.Name() + ")"
+			}
+		}
+	}
+	pv := c.provFor("idxneg")
+	var okOrigin func(o string, fn *ssa.Function, depth int) bool
+	okOrigin = func(o string, fn *ssa.Function, depth int) bool {
+		if o == pathParam && pathParam != "" {
+			return true
+		}
+		if strings.HasSuffix(o, ".configFileName") || strings.HasSuffix(o, ".configFileName[:]") {
+			return true
+		}
+		// a parameter of a helper: every caller hands it such a string
+		if depth < 2 && strings.HasPrefix(o, "P("+c.FuncKey(fn)+".") && strings.HasSuffix(o, ")") {
+			name := strings.TrimSuffix(strings.TrimPrefix(o, "P("+c.FuncKey(fn)+"."), ")")
+			idx := -1
+			for i, p := range fn.Params {
+				if p.Name() == name {
+					idx = i
+				}
+			}
+			n := 0
+			for _, caller := range c.Funcs {
+				for _, ci := range callsIn(caller) {
+					if ci.Common().StaticCallee() != fn || idx < 0 || idx >= len(ci.Common().Args) {
+						continue
+					}
+					n++
+					for _, o2 := range pv.Origins(ci.Common().Args[idx]) {
+						if !okOrigin(o2, caller, depth+1) {
+							return false
+						}
+					}
+				}
+			}
+			return n > 0
+		}
+		return false
+	}
+	os := pv.Origins(call.Call.Args[0])
+	if len(os) == 0 {
+		return false
+	}
+	for _, o := range os {
+		if !okOrigin(o, call.Parent(), 0) {
+			return false
+		}
+	}
+	return true
 }
 
 func ruleLintIdxNeg(c *Ctx, r *Rep) {
@@ -503,8 +565,8 @@ func ruleLintIdxNeg(c *Ctx, r *Rep) {
 				switch {
 				case tested:
 					r.Ok("index-tested|"+key, c.Pos(u.pos), "-1 excluded before use as a bound", "tested")
-				case idxNegExceptions[key] != "":
-					r.Ok("index-exception|"+key, c.Pos(u.pos), "named exception", idxNegExceptions[key])
+				case dottedPathIndex(c, call):
+					r.Ok("index-exception|"+key, c.Pos(u.pos), "the searched string always contains the dot", "it is the path of a walked configuration file (it passed the .yaml/.yml/.json suffix filter) or a stored configuration file name (walked, or built as alias + \".yaml\"); a missing slash gives -1+1 = 0")
 				default:
 					r.Bad("index-untested|"+key, c.Pos(u.pos), "a test against -1 before the result is used as a "+u.role+" bound", "Index result used directly")
 				}
